@@ -628,6 +628,10 @@ def invalid_lists(ctx):
                                    map_list=[["a", "a", "first"], ["b", "b", "second"]], ignore_missing=True), REMAP_GOOD),
         ("map-destination-repeated", op("remap_columns", source_columns=["trial_type"], destination_columns=["kind", "kind"],
                                         map_list=[["a", "first", "x"], ["b", "second", "y"]], ignore_missing=True), REMAP_GOOD),
+        # two columns renamed to one name: the result would have two columns of that name, which no later operation can address
+        ("rename-two-columns-to-one-name", op("rename_columns", column_mapping={"code": "kode", "trial_type": "kode"},
+                                              ignore_missing=True),
+         op("rename_columns", column_mapping={"code": "kode", "trial_type": "type"}, ignore_missing=True)),
         ("anchor-in-match-columns", op("merge_consecutive", column_name="trial_type", event_code="a", set_durations=False,
                                        ignore_missing=True, match_columns=["trial_type"]),
          op("merge_consecutive", column_name="trial_type", event_code="a", set_durations=False, ignore_missing=True)),
